@@ -3,8 +3,9 @@
 // continue/break/return, multi-value returns, receiver-read hoisting.
 //
 // Two modes:
-//   gen <dir> <namespace> <import> <roots…>                       table / straight-line functions  -> Gen/V*.lean
-//   gen <dir> <namespace> <imp1,imp2> ext:<GenVxx> pfn:<f> … [fuel:N]   the parsers (see "Parser mode" below) -> Gen/P*.lean
+//
+//	gen <dir> <namespace> <import> <roots…>                       table / straight-line functions  -> Gen/V*.lean
+//	gen <dir> <namespace> <imp1,imp2> ext:<GenVxx> pfn:<f> … [fuel:N]   the parsers (see "Parser mode" below) -> Gen/P*.lean
 package main
 
 import (
@@ -20,22 +21,23 @@ import (
 	"go/types"
 	"math"
 	"os"
+	"path/filepath"
 	"sort"
 	"strings"
 )
 
 type gen struct {
-	fset    *token.FileSet
-	info    *types.Info
-	pkg     *types.Package
-	funcs   map[string]*ast.FuncDecl
-	recv    map[string]string
-	reads   map[string][]string
-	tables  map[string]*ast.ValueSpec
-	done    map[string]bool
-	defsOut []string
-	ns      string
-	rawRecv bool
+	fset      *token.FileSet
+	info      *types.Info
+	pkg       *types.Package
+	funcs     map[string]*ast.FuncDecl
+	recv      map[string]string
+	reads     map[string][]string
+	tables    map[string]*ast.ValueSpec
+	done      map[string]bool
+	defsOut   []string
+	ns        string
+	rawRecv   bool
 	readExprs map[string]string // read text -> Lean expr over u0..uN
 	errVars   map[string]int    // package-level error sentinels -> code
 	errTypes  map[string]int    // typed errors -> code
@@ -44,13 +46,13 @@ type gen struct {
 	fields    []string          // object struct field names
 	panicVal  string            // current function's panic value
 	// ---- parser mode (Gen/P*.lean) ----
-	pmode   bool               // translating the parsers: checked indexing, loops with fuel, lifted loop bodies
-	ext     string             // namespace holding everything that is not a parser-mode function (GenVxx)
-	pfuncs  map[string]bool    // functions translated in parser mode
-	fuel    string             // fuel for `for { }` loops without a condition
-	subst   map[ast.Expr]string // hoisted (checked) subexpressions -> bound name
-	cur     *pfn               // parser-mode function being translated
-	pinfos  map[string]*pfn
+	pmode  bool                // translating the parsers: checked indexing, loops with fuel, lifted loop bodies
+	ext    string              // namespace holding everything that is not a parser-mode function (GenVxx)
+	pfuncs map[string]bool     // functions translated in parser mode
+	fuel   string              // fuel for `for { }` loops without a condition
+	subst  map[ast.Expr]string // hoisted (checked) subexpressions -> bound name
+	cur    *pfn                // parser-mode function being translated
+	pinfos map[string]*pfn
 }
 
 func (g *gen) src(n ast.Node) string {
@@ -126,8 +128,10 @@ func (g *gen) collectReads(name string) []string {
 	ast.Inspect(fd.Body, func(n ast.Node) bool {
 		if e, ok := n.(ast.Expr); ok {
 			if pure, has := g.isRecvPure(e, recv); pure && has {
-				add(g.src(stripParens(e)))
-				g.readExprs[g.src(stripParens(e))] = g.rawRead(stripParens(e))
+				// a read is identified by its normalised Lean text, not by its Go spelling: `0x07` / `0b111`, `(u>>6)&3` /
+				// `(u&0xC0)>>6` and a renamed receiver all denote the same read
+				add(g.rawRead(e))
+				g.readExprs[g.rawRead(e)] = g.rawRead(e)
 				return false
 			}
 			if call, ok := e.(*ast.CallExpr); ok {
@@ -155,6 +159,16 @@ func (g *gen) collectReads(name string) []string {
 	return res
 }
 
+// constInt: the value of a constant non-negative integer expression
+func (g *gen) constInt(e ast.Expr) *int64 {
+	if tv, ok := g.info.Types[stripParens(e)]; ok && tv.Value != nil && tv.Value.Kind() == constant.Int {
+		if n, ok := constant.Int64Val(tv.Value); ok && n >= 0 {
+			return &n
+		}
+	}
+	return nil
+}
+
 // rawRead renders a receiver-pure expression over the field names themselves.
 func (g *gen) rawRead(e ast.Expr) string {
 	e = stripParens(e)
@@ -165,6 +179,21 @@ func (g *gen) rawRead(e ast.Expr) string {
 	case *ast.SelectorExpr:
 		return x.Sel.Name
 	case *ast.BinaryExpr:
+		if x.Op == token.AND {
+			// canonical forms: constant operand second; `(X >> s) & m` is written `(X & (m << s)) >> s` (equal on Nat)
+			xe, ye := stripParens(x.X), stripParens(x.Y)
+			if g.constInt(xe) != nil && g.constInt(ye) == nil {
+				xe, ye = ye, xe
+			}
+			if m := g.constInt(ye); m != nil {
+				if sh, ok := xe.(*ast.BinaryExpr); ok && sh.Op == token.SHR {
+					if sc := g.constInt(sh.Y); sc != nil && *sc < 64 {
+						return fmt.Sprintf("(Nat.shiftRight (Nat.land %s (%d : Nat)) (%d : Nat))", g.rawRead(sh.X), *m<<uint(*sc), *sc)
+					}
+				}
+				return fmt.Sprintf("(Nat.land %s (%d : Nat))", g.rawRead(xe), *m)
+			}
+		}
 		a, b := g.rawRead(x.X), g.rawRead(x.Y)
 		switch x.Op {
 		case token.AND:
@@ -309,7 +338,7 @@ func (g *gen) expr(e ast.Expr, en *env) string {
 		}
 	}
 	if pure, has := g.isRecvPure(e, en.recv); pure && has && !g.mutates[en.name] {
-		return en.params[g.src(e)]
+		return en.params[g.rawRead(e)]
 	}
 	switch x := e.(type) {
 	case *ast.SelectorExpr:
@@ -541,8 +570,8 @@ func (g *gen) expr(e ast.Expr, en *env) string {
 
 // ctx says how control leaves the current statement list.
 type ctx struct {
-	fall string // Lean expr when falling off the end (uses current bindings via shadowing)
-	bare string // value of a bare `return` (named results / in-out params)
+	fall string              // Lean expr when falling off the end (uses current bindings via shadowing)
+	bare string              // value of a bare `return` (named results / in-out params)
 	wrap func(string) string // decorate an explicit return value (mutators append the fields)
 	ret  func(string) string
 	cont string // "" if not in loop
@@ -844,8 +873,11 @@ func (g *gen) stmts(ss []ast.Stmt, en *env, c ctx, ind string) string {
 		}
 		return fmt.Sprintf("match (cond %s\n%s  (%s)\n%s  (%s)) with\n%s| %s =>\n%s%s", cnd, ind, t, ind, e, ind, tuple(vars), ind, next())
 	case *ast.SwitchStmt:
-		if x.Init != nil || x.Tag == nil {
+		if x.Init != nil {
 			g.die(s, "switch form")
+		}
+		if x.Tag == nil {
+			return g.stmts(append([]ast.Stmt{g.taglessAsIf(x)}, rest...), en, c, ind)
 		}
 		tag := g.expr(x.Tag, en)
 		var def []ast.Stmt
@@ -899,6 +931,51 @@ func (g *gen) stmts(ss []ast.Stmt, en *env, c ctx, ind string) string {
 	}
 	g.die(s, "statement %s", g.src(s))
 	return ""
+}
+
+// taglessAsIf rewrites `switch { case a, b: A; case c: C; default: D }` as `if a || b { A } else if c { C } else { D }`
+// (no break/fallthrough inside), so that the two spellings of a decision chain translate to the same text
+func (g *gen) taglessAsIf(x *ast.SwitchStmt) ast.Stmt {
+	var def []ast.Stmt
+	hasDef := false
+	var clauses []*ast.CaseClause
+	for _, cl := range x.Body.List {
+		cc := cl.(*ast.CaseClause)
+		for _, st := range cc.Body {
+			ast.Inspect(st, func(n ast.Node) bool {
+				switch b := n.(type) {
+				case *ast.ForStmt, *ast.RangeStmt, *ast.SwitchStmt, *ast.FuncLit:
+					return false
+				case *ast.BranchStmt:
+					if b.Tok == token.BREAK || b.Tok == token.FALLTHROUGH {
+						g.die(b, "break/fallthrough inside a tagless switch")
+					}
+				}
+				return true
+			})
+		}
+		if cc.List == nil {
+			def, hasDef = cc.Body, true
+			continue
+		}
+		clauses = append(clauses, cc)
+	}
+	var tail ast.Stmt
+	if hasDef {
+		tail = &ast.BlockStmt{List: def}
+	}
+	for i := len(clauses) - 1; i >= 0; i-- {
+		cc := clauses[i]
+		cond := cc.List[0]
+		for _, e := range cc.List[1:] {
+			cond = &ast.BinaryExpr{X: cond, Op: token.LOR, Y: e}
+		}
+		tail = &ast.IfStmt{Cond: cond, Body: &ast.BlockStmt{List: cc.Body}, Else: tail}
+	}
+	if tail == nil {
+		return &ast.EmptyStmt{}
+	}
+	return tail
 }
 
 // ---------- tables ----------
@@ -956,7 +1033,7 @@ func (g *gen) needTable(name string) {
 	for i, n := range vs.Names {
 		if n.Name == name {
 			t := g.info.Defs[n].Type()
-			g.defsOut = append(g.defsOut, fmt.Sprintf("/-- table %s (%s) -/\ndef tbl_%s : %s :=\n  %s\n", name, g.fset.Position(n.Pos()), name, leanType(t), g.litValue(vs.Values[i])))
+			g.defsOut = append(g.defsOut, fmt.Sprintf("/-- table %s (%s) -/\ndef tbl_%s : %s :=\n  %s\n", name, posOf(g.fset, n.Pos()), name, leanType(t), g.litValue(vs.Values[i])))
 		}
 	}
 }
@@ -1121,11 +1198,37 @@ func (g *gen) emit(name string) string {
 		suffix = "_core"
 	}
 	body := g.stmts(fd.Body.List, en, c, "  ")
-	hdr := fmt.Sprintf("/-- %s  (%s) -/\n", name, g.fset.Position(fd.Pos()))
+	hdr := fmt.Sprintf("/-- %s  (%s) -/\n", name, posOf(g.fset, fd.Pos()))
 	if len(doc) > 0 {
 		hdr += strings.Join(doc, "\n") + "\n"
 	}
 	out := hdr + "def " + leanName(name) + suffix + " " + strings.Join(ps, " ") + " : " + retT + " :=\n  " + pre + body + "\n"
+	// capacity of a pre-sized buffer: for a top-level `b := make([]T, 0, X)` emit the twin `<name>_cap` = the statements
+	// before it followed by X, so that "the buffer never regrows" (C17) is a statement about the code's own capacity
+	capBody := ""
+	for i, s := range fd.Body.List {
+		as, ok := s.(*ast.AssignStmt)
+		if !ok || len(as.Rhs) != 1 {
+			continue
+		}
+		call, ok := as.Rhs[0].(*ast.CallExpr)
+		if !ok || len(call.Args) != 3 {
+			continue
+		}
+		if id, ok := call.Fun.(*ast.Ident); !ok || id.Name != "make" {
+			continue
+		}
+		if capBody != "" {
+			g.die(call, "two pre-sized buffers in %s", name)
+		}
+		c2 := ctx{ret: func(r string) string { return r }}
+		c2.fall = g.expr(call.Args[2], en)
+		c2.bare = c2.fall
+		capBody = g.stmts(fd.Body.List[:i], en, c2, "  ")
+	}
+	if capBody != "" {
+		out += fmt.Sprintf("\n/-- capacity argument of the `make` in %s -/\ndef %s_cap%s %s : Nat :=\n  %s\n", name, leanName(name), suffix, strings.Join(ps, " "), capBody)
+	}
 	if en.recv != "" && !isMut {
 		var fs, as []string
 		for _, f := range g.fields {
@@ -1145,15 +1248,26 @@ func (g *gen) emit(name string) string {
 			}
 		}
 		out += "\ndef " + leanName(name) + " " + strings.Join(append(fs, extra...), " ") + " : " + retT + " :=\n  " + leanName(name) + "_core " + strings.Join(append(as, extraArgs...), " ") + "\n"
+		if capBody != "" {
+			out += "\ndef " + leanName(name) + "_cap " + strings.Join(append(fs, extra...), " ") + " : Nat :=\n  " + leanName(name) + "_cap_core " + strings.Join(append(as, extraArgs...), " ") + "\n"
+		}
 	}
 	return out
+}
+
+// posOf names the source file only: line numbers and absolute paths would make every generated file change (and every
+// proof rebuild) when a comment is added above a function or the repository is checked out elsewhere
+func posOf(fset *token.FileSet, p token.Pos) string {
+	return filepath.Base(fset.Position(p).Filename)
 }
 
 func main() {
 	dir, ns, imp := os.Args[1], os.Args[2], os.Args[3]
 	roots := os.Args[4:]
 	fset := token.NewFileSet()
-	pkgs, err := parser.ParseDir(fset, dir, func(fi os.FileInfo) bool { return !strings.HasSuffix(fi.Name(), "_test.go") && !strings.HasPrefix(fi.Name(), "zz_verif") }, 0)
+	pkgs, err := parser.ParseDir(fset, dir, func(fi os.FileInfo) bool {
+		return !strings.HasSuffix(fi.Name(), "_test.go") && !strings.HasPrefix(fi.Name(), "zz_verif")
+	}, 0)
 	if err != nil {
 		panic(err)
 	}
@@ -1306,9 +1420,9 @@ func main() {
 					os.Exit(2)
 				}
 				if c.Val().Kind() == constant.String {
-					facts = append(facts, fmt.Sprintf("/-- constant %s (%s) -/\ndef const_%s : List Nat :=\n  %s\n", n, fset.Position(c.Pos()), n, strLit(constant.StringVal(c.Val()))))
+					facts = append(facts, fmt.Sprintf("/-- constant %s (%s) -/\ndef const_%s : List Nat :=\n  %s\n", n, posOf(fset, c.Pos()), n, strLit(constant.StringVal(c.Val()))))
 				} else {
-					facts = append(facts, fmt.Sprintf("/-- constant %s (%s) -/\ndef const_%s : Nat := %s\n", n, fset.Position(c.Pos()), n, c.Val().ExactString()))
+					facts = append(facts, fmt.Sprintf("/-- constant %s (%s) -/\ndef const_%s : Nat := %s\n", n, posOf(fset, c.Pos()), n, c.Val().ExactString()))
 				}
 			case strings.HasPrefix(r, "hash:"):
 				// normalised source text (go/printer, comments dropped) of a function the hand-written model follows
@@ -1339,7 +1453,7 @@ func main() {
 						cp.Doc = nil
 						printer.Fprint(&b, fset, &cp)
 						sum := sha256.Sum256(b.Bytes())
-						facts = append(facts, fmt.Sprintf("/-- sha256 of the printed source of %s (%s) -/\ndef srchash_%s : String := \"%x\"\n", want, fset.Position(fd.Pos()), strings.ReplaceAll(want, ".", "_"), sum[:8]))
+						facts = append(facts, fmt.Sprintf("/-- sha256 of the printed source of %s (%s) -/\ndef srchash_%s : String := \"%x\"\n", want, posOf(fset, fd.Pos()), strings.ReplaceAll(want, ".", "_"), sum[:8]))
 					}
 				}
 				if !found {
@@ -1354,7 +1468,7 @@ func main() {
 			for _, i := range strings.Split(imp, ",") {
 				fmt.Printf("import %s\n", i)
 			}
-			fmt.Printf("set_option linter.unusedVariables false\n/-! GENERATED from %s (parser mode) — do not edit -/\nnamespace %s\n\n", dir, ns)
+			fmt.Printf("set_option linter.unusedVariables false\n/-! GENERATED from package %s (parser mode) — do not edit -/\nnamespace %s\n\n", filepath.Base(dir), ns)
 			for _, d := range g.defsOut {
 				fmt.Println(d)
 			}
@@ -1362,14 +1476,13 @@ func main() {
 			continue
 		}
 		g.defsOut = append(g.defsOut, stateFacts(fset, files, info, pkg)...)
-		fmt.Printf("import %s\nset_option linter.unusedVariables false\nset_option maxRecDepth 100000\n/-! GENERATED from %s — do not edit -/\nnamespace %s\n\n", imp, dir, ns)
+		fmt.Printf("import %s\nset_option linter.unusedVariables false\nset_option maxRecDepth 100000\n/-! GENERATED from package %s — do not edit -/\nnamespace %s\n\n", imp, filepath.Base(dir), ns)
 		for _, d := range g.defsOut {
 			fmt.Println(d)
 		}
 		fmt.Printf("end %s\n", ns)
 	}
 }
-
 
 // stateFacts lists, for the whole package (every function, translated or not), each place where shared
 // (package-level) state is written, has its address taken, or has a method called on it, and each use of
@@ -1466,6 +1579,13 @@ func stateFacts(fset *token.FileSet, files []*ast.File, info *types.Info, pkg *t
 		}
 		return "[" + strings.Join(q, ", ") + "]"
 	}
+	lstRaw := func(xs []string) string {
+		var q []string
+		for _, x := range xs {
+			q = append(q, fmt.Sprintf("%q", x))
+		}
+		return "[" + strings.Join(q, ", ") + "]"
+	}
 	// init functions and build constraints: code that runs or exists outside what the translated functions show
 	var inits, tags []string
 	for _, f := range files {
@@ -1488,7 +1608,30 @@ func stateFacts(fset *token.FileSet, files []*ast.File, info *types.Info, pkg *t
 			}
 		}
 	}
+	// the object type: its fields (hidden state would take part in ==) and the methods that can write through the receiver
+	var ofields, ptrm []string
+	for _, n := range pkg.Scope().Names() {
+		tn, ok := pkg.Scope().Lookup(n).(*types.TypeName)
+		if !ok || !strings.HasPrefix(n, "CVSS") {
+			continue
+		}
+		if st, ok := tn.Type().Underlying().(*types.Struct); ok {
+			for i := 0; i < st.NumFields(); i++ {
+				ofields = append(ofields, st.Field(i).Name()+":"+st.Field(i).Type().String())
+			}
+		}
+		if named, ok := tn.Type().(*types.Named); ok {
+			for i := 0; i < named.NumMethods(); i++ {
+				m := named.Method(i)
+				if _, isPtr := m.Type().(*types.Signature).Recv().Type().(*types.Pointer); isPtr {
+					ptrm = append(ptrm, m.Name())
+				}
+			}
+		}
+	}
 	return []string{
+		"/-- fields of the object type (name:type), in declaration order -/\ndef obj_fields : List String :=\n  " + lstRaw(ofields) + "\n",
+		"/-- methods of the object type with a pointer receiver (the only ones that can change the object) -/\ndef obj_ptr_methods : List String :=\n  " + lst(ptrm) + "\n",
 		"/-- `init` functions of the package (file:init) -/\ndef pkg_inits : List String :=\n  " + lst(inits) + "\n",
 		"/-- build constraints on non-test source files other than the verification hooks (file:constraint) -/\ndef pkg_build_tags : List String :=\n  " + lst(tags) + "\n",
 		"/-- package-level variables (name:type) -/\ndef pkg_vars : List String :=\n  " + lst(vars) + "\n",
@@ -2284,7 +2427,7 @@ func (g *gen) lift(name string, node ast.Node, free []string, extra string, vars
 	}
 	stT := tupleT(ts)
 	d := fmt.Sprintf("/-- %s: body of the loop at %s -/\ndef %s %s : %s → Go.Ctl %s %s\n  | %s =>\n    %s\n",
-		f.name, g.fset.Position(node.Pos()), name, strings.Join(ps, " "), stT, stT, f.resT, tuple(vars), body)
+		f.name, posOf(g.fset, node.Pos()), name, strings.Join(ps, " "), stT, stT, f.resT, tuple(vars), body)
 	f.lifted = append(f.lifted, d)
 }
 
@@ -2527,8 +2670,11 @@ func (g *gen) pstmts(ss []ast.Stmt, en *env, c ctx, ind string) string {
 		e := g.pstmts(elseS, en, bc, ind+"  ")
 		return pre + fmt.Sprintf("match (cond %s\n%s  (%s)\n%s  (%s)) with\n%s| %s =>\n%s%s", cnd, ind, t, ind, e, ind, tuple(vars), ind, next())
 	case *ast.SwitchStmt:
-		if x.Init != nil || x.Tag == nil {
+		if x.Init != nil {
 			g.die(s, "switch form")
+		}
+		if x.Tag == nil {
+			return g.pstmts(append([]ast.Stmt{g.taglessAsIf(x)}, rest...), en, c, ind)
 		}
 		pre := g.hoist(x.Tag, en, c.pan, ind)
 		tag := g.expr(x.Tag, en)
@@ -2704,7 +2850,7 @@ func (g *gen) emitP(name string) {
 	}
 	c := ctx{ret: func(r string) string { return r }, fall: f.pan, pan: f.pan}
 	body := g.pstmts(fd.Body.List, en, c, "  ")
-	doc := fmt.Sprintf("/-- %s  (%s)", name, g.fset.Position(fd.Pos()))
+	doc := fmt.Sprintf("/-- %s  (%s)", name, posOf(g.fset, fd.Pos()))
 	if f.kind == "res" {
 		doc += "\n    result: `Go.Res.ok fields` = `return obj, nil`; `Go.Res.err e` = `return nil, e`; `Go.Res.panic`"
 	} else {
